@@ -46,6 +46,14 @@ def cases(tier, rng):
         faulty.append(''.join(rng.choice(['a', '\n', ' ', '{', '}', '$', '\\(', '\\)', '\\begin{e}', '\\end{e}', '%c\n', '\\x']) for _ in range(L)))
     for s in faulty:
         yield {'k': 'err', 's': s}
+    # located errors through every parsing entry point of the walker, under non-default offsets: token-level errors
+    # (`\\begin` without name, lone backslash at the end, unclosed group) reach the caller without being re-wrapped there
+    tokfaulty = ['ab\n\\begin x', 'ab\n\n  \\begin', 'a\n{b\n\\', '\n\n{a\n\\end', 'x\n[y\n\\begin z', '{a\n\nb', '\n {', 'a\n\\', '\\begin', ' \n[\n\\begin{e}']
+    for s in tokfaulty:
+        for o in OFFS:
+            for via in ('nodes', 'group', 'brgroup', 'expr', 'opt', 'delimited', 'exprparser'):
+                for pos in sorted(set([0, s.find('{') if '{' in s else 0, s.find('[') if '[' in s else 0])):
+                    yield {'k': 'err2', 's': s, 'o': list(o), 'via': via, 'pos': pos}
 
 def to_line(c):
     if c['k'] == 'seq':
@@ -100,6 +108,37 @@ def run_impl(c):
         elif d != {'lineno': ln, 'colno': col}:
             fail = {'kind': 'as-dict-differs', 'detail': repr(d)}
         return {'out': '%d %d' % (ln, col), 'fail': fail, 'sig': 'L%d,%d' % (min(ln - o[0], 4), min(col - (o[1] if ln - o[0] == 0 else o[2]), 4))}
+    elif c['k'] == 'err2':
+        import warnings
+        from pylatexenc import latexwalker
+        from pylatexenc.latexnodes import parsers
+        warnings.simplefilter('ignore')
+        s, o, pos = c['s'], c['o'], c['pos']
+        w = latexwalker.LatexWalker(s, tolerant_parsing=False, line_number_offset=o[0], first_line_column_offset=o[1], column_offset=o[2])
+        calls = {'nodes': lambda: w.get_latex_nodes(pos=pos),
+                 'group': lambda: w.get_latex_braced_group(pos),
+                 'brgroup': lambda: w.get_latex_braced_group(pos, brace_type='['),
+                 'expr': lambda: w.get_latex_expression(pos),
+                 'opt': lambda: w.get_latex_maybe_optional_arg(pos),
+                 'delimited': lambda: w.parse_content(parsers.LatexDelimitedGroupParser(delimiters=('{', '}')), token_reader=w.make_token_reader(pos=pos)),
+                 'exprparser': lambda: w.parse_content(parsers.LatexExpressionParser(), token_reader=w.make_token_reader(pos=pos))}
+        fail = None
+        sig = 'err2:%s:none' % c['via']
+        try:
+            calls[c['via']]()
+        except latexwalker.LatexWalkerParseError as e:
+            sig = 'err2:%s:located' % c['via']
+            if e.pos is not None and 0 <= e.pos <= len(s):
+                line = s.count('\n', 0, e.pos); start = s.rfind('\n', 0, e.pos) + 1
+                want = (line + o[0], e.pos - start + (o[1] if line == 0 else o[2]))
+                if (e.lineno, e.colno) != want:
+                    fail = {'kind': 'error-line-col-mismatch', 'detail': 'walker offsets %r, entry point %s at %d: error at pos %d says %r, that position is %r'
+                            % (o, c['via'], pos, e.pos, (e.lineno, e.colno), want)}
+            elif e.pos is None:
+                fail = {'kind': 'error-without-pos', 'detail': repr(str(e))[:200]}
+        except Exception as e:
+            sig = 'err2:%s:other' % c['via']
+        return {'out': None, 'fail': fail, 'sig': sig}
     else:
         from pylatexenc import latexwalker
         from pylatexenc.latexnodes import parsers
